@@ -94,6 +94,29 @@ def replay_addp_{ns}_{k}(title, body, model_none, is_redirect):
     ok = len(pages) == 1 and pages[0].title == title and pages[0].redirect_to == ("Target" if is_redirect else None) and pages[0].model == ("wikitext" if model_none else "Scribunto") and (is_redirect or {ns} == 10 or pages[0].body == body)
     return (f"add_page({{title!r}}, {ns}, ...) then get_all_pages()", not ok, f"stored {{[(p.title, p.body, p.redirect_to, p.model) for p in pages]}}")
 ''')
+    # a title written with "_" for " " (in the namespace prefix, in the rest, or both) is stored in its spelling with spaces
+    for ns, pfx in ((11, "Template talk:"), (10, "Template:"), (0, "")):
+        for k in range(1, L + 1):
+            n = len(pfx) + k
+            holes = " and ".join(f'title[{len(pfx) + i}] in "aT _"' for i in range(k))
+            out.append(f'''
+def addu_{ns}_{k}(title: str, us_prefix: bool) -> bool:
+    """
+    pre: len(title) == {n} and pinned(title, 0, {pfx!r}) and {holes}
+    post: _
+    """
+    given = ({pfx!r}.replace(" ", "_") if us_prefix else {pfx!r}) + title[{len(pfx)}:]
+    w = written(given, {ns}, "b", None, None)
+    return w is not None and w[0] == title.replace("_", " ") and w[1] == {ns}
+
+
+def replay_addu_{ns}_{k}(title, us_prefix):
+    given = ({pfx!r}.replace(" ", "_") if us_prefix else {pfx!r}) + title[{len(pfx)}:]
+    w = Wtp(quiet=True, quiet_output=True)
+    w.add_page(given, {ns}, "b")
+    pages = [(p.title, p.namespace_id) for p in w.get_all_pages()]
+    return (f"add_page({{given!r}}, {ns}, 'b') then get_all_pages()", pages != [(title.replace("_", " "), {ns})], f"stored {{pages}}")
+''')
     return "\n".join(out)
 
 
@@ -104,7 +127,7 @@ def run(rep: C.Report) -> None:
         "the code performs): symbolic title skeletons (plain, x/documentation, x/documentation+y, x/testcases+y), namespace, selection, every content model of a list, text and redirect. "
         "add_page (recording connection) stores a canonical title unchanged and passes body/model/redirect through (template bodies reduced to their includable part). add_default_templates adds exactly the absent helpers."
     )
-    rep.assumptions += ["lxml field extraction is stubbed (replays build a real .xml.bz2 and run the real parse_dump_xml)", "a redirect page is kept whatever its content model (the statement does not say; the code keeps it)", "dump titles contain no underscore (MediaWiki canonical form)", "recorded finding: a page titled 'Main:...' in namespace 0 loses that prefix (region excluded: namespace-0 titles are drawn without the letter M)"]
+    rep.assumptions += ["lxml field extraction is stubbed (replays build a real .xml.bz2 and run the real parse_dump_xml)", "a redirect page is kept whatever its content model (the statement does not say; the code keeps it)", "recorded finding: a page titled 'Main:...' in namespace 0 loses that prefix (region excluded: namespace-0 titles are drawn without the letter M)"]
     rep.outside += ["XML extraction (lxml, bz2), duplicate <page> elements, namespaces beyond the four sampled", "process_dump's overwrite/backup flow"]
     rep.trusted += ["CrossHair 0.0.110", "z3", "vf/slicer.py"]
     # recorded finding probe
@@ -127,6 +150,7 @@ def run(rep: C.Report) -> None:
             {
                 "^seq_": dict(name="Ob2b two consecutive pages: the record stored for a page depends on that page only", functions=["dumpparser.py:parse_dump_xml loop incl. the statements preceding it in the with block (AST slice)"], bounds="2 page elements, each: selected or not, 9 content models, redirect or not, text/target <= 1 symbolic char"),
                 "^flt_": dict(name="Ob2 page filter and field pass-through of parse_dump_xml", functions=["dumpparser.py:parse_dump_xml loop body (AST slice)"], bounds=f"title skeletons with 1..{2 if quick else 3} symbolic chars over {{a,T,:,/,space,é}}; 4 namespaces, selected or not; 9 content models; text/redirect target <= 2 symbolic chars"),
+                "^addu_": dict(name="Ob1b a title written with '_' for ' ' (in a two-word namespace prefix, after it, or both) is stored once, under its spelling with spaces", functions=["core.py:Wtp.add_page"], bounds=f"namespaces Template talk / Template / main; prefix written with spaces or underscores; 1..{2 if quick else 3} symbolic chars over {{a,T,space,_}}"),
                 "^addp_": dict(name="Ob1 add_page stores a canonical title unchanged and passes the fields through", functions=["core.py:Wtp.add_page", "core.py:Wtp._template_to_body"], bounds=f"prefix of the namespace + 1..{2 if quick else 3} symbolic chars; body <= 3 symbolic chars; model None or given; redirect or not"),
                 "^defaults_ok": dict(name="Ob3 add_default_templates adds exactly the absent helpers and never overwrites a page that is there (text, empty includable part, or a dangling redirect)", functions=["dumpparser.py:add_default_templates"], bounds="all 4^4 presence kinds of the four helper templates (absent, text, empty includable part, dangling redirect)"),
             },
